@@ -10,11 +10,14 @@ import (
 type State struct {
 	heap  map[string]Term
 	epoch int
-	alloc Term
+	// gepoch names untouched ghost (X|) components: it survives a havoc of
+	// the program heap alone (`modifies heap`).
+	gepoch int
+	alloc  Term
 }
 
 func (s *State) clone() *State {
-	n := &State{heap: make(map[string]Term, len(s.heap)), epoch: s.epoch, alloc: s.alloc}
+	n := &State{heap: make(map[string]Term, len(s.heap)), epoch: s.epoch, gepoch: s.gepoch, alloc: s.alloc}
 	for k, v := range s.heap {
 		n.heap[k] = v
 	}
@@ -48,7 +51,11 @@ func (c *Ctx) get(st *State, key string) Term {
 	if !ok {
 		panic("unregistered heap component " + key)
 	}
-	return c.constNamed(fmt.Sprintf("%s@%d", c.compName(key), st.epoch), s)
+	ep := st.epoch
+	if strings.HasPrefix(key, "X|") {
+		ep = st.gepoch
+	}
+	return c.constNamed(fmt.Sprintf("%s@%d", c.compName(key), ep), s)
 }
 
 func (c *Ctx) set(st *State, key string, v Term) {
@@ -63,10 +70,25 @@ func (c *Ctx) havocComp(st *State, key string) {
 func (c *Ctx) havocAll(st *State) {
 	epochCounter++
 	st.epoch = epochCounter
+	st.gepoch = epochCounter
 	st.heap = map[string]Term{}
 	na := c.fresh("alloc", SInt)
 	c.assume(app(SBool, ">=", na, st.alloc), false)
 	st.alloc = na
+}
+
+// havocHeap forgets the program heap but keeps ghost components and defer flags.
+func (c *Ctx) havocHeap(st *State) {
+	keep := map[string]Term{}
+	for k, v := range st.heap {
+		if strings.HasPrefix(k, "X|") || strings.HasPrefix(k, "D|") {
+			keep[k] = v
+		}
+	}
+	g := st.gepoch
+	c.havocAll(st)
+	st.gepoch = g
+	st.heap = keep
 }
 
 // component keys -------------------------------------------------------------
